@@ -10,6 +10,12 @@ import (
 
 const zzPrompt = int64(time.Second) // "promptly": no uninterruptible wait longer than this
 
+// after the stop request the activity may run at most this many interpreter
+// steps (SSA instructions) before it returns: a loop that keeps spinning
+// without blocking is reported, not counted as an exhausted budget
+const zzC13StopSteps = 150000
+const zzC13StopLabel = "stops-promptly-no-spin-after-stop"
+
 // ZZ_C13_aggregation_start: the production loop is asked to stop before or
 // right after it starts, with a genesis time anywhere from the past to one
 // hour in the future and any block time: it returns without sleeping through
@@ -38,7 +44,9 @@ func ZZ_C13_aggregation_start() {
 	cancel()
 	errCh := make(chan error, 1)
 	t0 := zzsym.NowNs()
+	zzsym.StepDeadline(zzC13StopSteps, zzC13StopLabel)
 	m.AggregationLoop(ctx, errCh)
+	zzsym.StepDeadline(0, "")
 	zzsym.Reach("returned")
 	zzsym.Assert(zzsym.NowNs()-t0 <= zzPrompt, "stops-promptly-no-uninterruptible-start-up-sleep")
 }
@@ -53,17 +61,20 @@ func ZZ_C13_submission_backoff() {
 	// the first submission is answered 'timed out' or 'already in mempool' (long
 	// back-off) or with a generic error (exponential back-off), later ones are accepted
 	da.script = []zzDAAnswer{{kind: []int{2, 3, 6}[zzsym.Pick("answer", 3)]}}
+	// the DA client either ignores a cancelled context or, like a network client, fails the call with it
+	da.honourCtx = zzsym.Bool("daHonoursCtx")
 	ctx, cancel := context.WithCancel(context.Background())
 	t0 := zzsym.NowNs()
 	stopAfter := zzsym.I64("stopAfter")
 	zzsym.Assume(stopAfter >= 0 && stopAfter <= int64(10*time.Minute))
 	var stoppedAt int64
-	zzsym.At(t0+stopAfter, func() { stoppedAt = zzsym.NowNs(); cancel() })
+	zzsym.At(t0+stopAfter, func() { stoppedAt = zzsym.NowNs(); cancel(); zzsym.StepDeadline(zzC13StopSteps, zzC13StopLabel) })
 	if zzsym.Bool("dataLoop") {
 		m.DataSubmissionLoop(ctx)
 	} else {
 		m.HeaderSubmissionLoop(ctx)
 	}
+	zzsym.StepDeadline(0, "")
 	zzsym.Reach("returned")
 	zzsym.Assert(stoppedAt != 0 && zzsym.NowNs()-stoppedAt <= zzPrompt, "stops-promptly-submission-loop")
 	_ = e
@@ -113,8 +124,9 @@ func ZZ_C13_retrieve_full_channel() {
 	}
 	ctx, cancel := context.WithCancel(context.Background())
 	m.retrieveCh <- struct{}{}
-	zzsym.OnIdle(cancel)
+	zzsym.OnIdle(func() { cancel(); zzsym.StepDeadline(zzC13StopSteps, zzC13StopLabel) })
 	m.RetrieveLoop(ctx)
+	zzsym.StepDeadline(0, "")
 	zzsym.Reach("returned")
 }
 
@@ -135,12 +147,13 @@ func ZZ_C13_error_channel_full() {
 		errCh <- zzErrInjected
 	}
 	ctx, cancel := context.WithCancel(context.Background())
-	zzsym.OnIdle(cancel)
+	zzsym.OnIdle(func() { cancel(); zzsym.StepDeadline(zzC13StopSteps, zzC13StopLabel) })
 	// block 1 is fully DA included but finalisation fails
 	m.headerCache.SetDAIncluded(e.store.blocks[1].header.Hash().String(), 3)
 	e.exec.failFin = true
 	m.daIncluderCh <- struct{}{}
 	m.DAIncluderLoop(ctx, errCh)
+	zzsym.StepDeadline(0, "")
 	zzsym.Reach("returned")
 }
 
@@ -158,8 +171,9 @@ func ZZ_C13_reaper() {
 	// (at most three ticks before the stop, to bound the run)
 	zzsym.Assume(stopAfter >= 0 && stopAfter <= int64(2*time.Hour) && stopAfter <= 3*iv)
 	var stoppedAt int64
-	zzsym.At(t0+stopAfter, func() { stoppedAt = zzsym.NowNs(); cancel() })
+	zzsym.At(t0+stopAfter, func() { stoppedAt = zzsym.NowNs(); cancel(); zzsym.StepDeadline(zzC13StopSteps, zzC13StopLabel) })
 	r.Start(ctx)
+	zzsym.StepDeadline(0, "")
 	zzsym.Reach("returned")
 	zzsym.Assert(stoppedAt != 0 && zzsym.NowNs()-stoppedAt <= zzPrompt, "stops-promptly-reaper")
 }
@@ -187,8 +201,9 @@ func ZZ_C13_reaper_slow_executor() {
 	stopAfter := zzsym.I64("stopAfter")
 	zzsym.Assume(stopAfter >= int64(time.Second) && stopAfter <= int64(3*time.Second))
 	var stoppedAt int64
-	zzsym.At(t0+stopAfter, func() { stoppedAt = zzsym.NowNs(); cancel() })
+	zzsym.At(t0+stopAfter, func() { stoppedAt = zzsym.NowNs(); cancel(); zzsym.StepDeadline(zzC13StopSteps, zzC13StopLabel) })
 	r.Start(ctx)
+	zzsym.StepDeadline(0, "")
 	zzsym.Reach("returned")
 	zzsym.Assert(stoppedAt != 0 && zzsym.NowNs()-stoppedAt <= zzPrompt, "stops-promptly-reaper-in-slow-call")
 }
